@@ -8,7 +8,10 @@
     the root buffer that their arguments denote.  A view (record [wview]) is therefore modelled
     as the affine map (start, stride per axis, extents) of the Go struct
     (Start / OffsetStep / Dims) and denotes the list [voffsets] of flat
-    offsets in row-major order.
+    offsets in row-major order.  (No longer only an assumption: Arrays/WrapperRefine.v proves
+    that the detailed array model of C01-C03 refines this view algebra -- index, Slice,
+    Contiguous, MustReshape, Get1/Set1 and the template's three view chains, for Go- and
+    C-backed arrays; statements in Properties/C04_views.v.)
 
     The four arrays (inputs, states, outputs, parameters) are flat row-major
     stores: memory is a function from (buffer, flat offset) to values, shapes
